@@ -373,6 +373,20 @@ def get_arrays_used_in_equation(equation):
             s, d = get_array_names(args)
             src_arrays.update(s)
             dest_arrays.update(d)
+
+    # The precomputed symbols a loop asks for (VIJ, RHOIJ, ...) read arrays too.
+    loop = getattr(equation, 'loop', None)
+    if loop is not None:
+        pre = precomputed_symbols()
+        todo = [x for x in getfullargspec(loop).args if x in pre]
+        done = set()
+        while todo:
+            sym = todo.pop()
+            if sym not in done:
+                done.add(sym)
+                src_arrays.update(pre[sym].src_arrays)
+                dest_arrays.update(pre[sym].dest_arrays)
+                todo.extend(x for x in pre[sym].symbols if x in pre)
     return src_arrays, dest_arrays
 
 
